@@ -579,7 +579,24 @@ func main() {
 	for i := 0; i < nDirs; i++ {
 		runEndToEnd(r.Fork(), i%6 != 5, f.N(6, 10))
 	}
+	// overlapping identical requests of different contexts on one sharded searcher
+	ro := r.Fork()
+	for i := 0; i < f.N(4, 60); i++ {
+		wd := genWorld(ro, true, fmt.Sprintf("o%d", i), false)
+		for j := range wd.Repos {
+			for k := range wd.Repos[j].Docs {
+				wd.Repos[j].Docs[k].FTomb = false // (the list oracle shared with the end-to-end cases has no file tombstones)
+			}
+		}
+		qs := []*nq{{Kind: "const", Val: true}, {Kind: "sub", Pat: gen.Pick(ro, words)}}
+		if i%2 == 1 {
+			qs[1] = genQuery(ro, &wd, 1, false)
+		}
+		overlapCases(ro, &wd, qs)
+	}
 }
+
+func verifhooksStrict() { verifhooks.TenantSetEnforcementMode("strict") }
 
 // replay re-runs the case stored in a replay file or a corpus witness (the `detail` of a case: world, query,
 // context, op) on the current tree.
@@ -605,6 +622,8 @@ func replay(path string) error {
 	switch {
 	case len(d.Worlds) > 0:
 		runEndToEndWorlds(r, d.Worlds, d.Strict, []*nq{d.NQ})
+	case d.World != nil && d.NQ != nil && strings.HasPrefix(d.Op, "overlap-"):
+		overlapCases(r, d.World, []*nq{d.NQ})
 	case d.World != nil && d.NQ != nil && d.NQ.hasTypeRepo():
 		if d.NQ.Kind != "and" || len(d.NQ.Kids) != 2 || d.NQ.Kids[0].Kind != "typerepo" {
 			return fmt.Errorf("%s: unsupported type:repo shape at shard level", path)
